@@ -62,7 +62,16 @@ impl Model {
     }
 }
 
+thread_local! {
+    /// blind mode: do not observe the level through read-only calls after each operation
+    /// (used by the purity check of C07, where the reads themselves are under test)
+    pub static BLIND: std::cell::Cell<bool> = const { std::cell::Cell::new(false) };
+}
+
 pub fn state_str(l: &PriceLevel) -> String {
+    if BLIND.with(|b| b.get()) {
+        return "blind=1".to_string();
+    }
     let st = l.stats();
     let vec = l.iter_orders();
     format!(
@@ -147,7 +156,9 @@ pub fn run(modelrun: &str) {
         let parts: Vec<&str> = line.split('|').collect();
         let case = parts[0];
         let price: u64 = parts[1].parse().unwrap();
-        let mode = parts[2];
+        let blind = parts[2].contains('B');
+        BLIND.with(|b| b.set(blind));
+        let mode = if parts[2].starts_with('C') { "C" } else { "O" };
         let mut lvl = PriceLevel::new(price);
         let mut fork: Option<PriceLevel> = None;
         let generator = UuidGenerator::new(Uuid::parse_str(NS_MAIN).unwrap());
